@@ -111,8 +111,20 @@ def rules(rep, m):
     outer = loops[0]
     body = kids(outer)[-1]
     idx_decl = None
-    for x in walk(body):
-        if x["kind"] == "VarDecl" and kids(x):
+
+    def fetch_sites():
+        """declarations `T v = fetch_add(...)` and assignments `v = fetch_add(...)` to a local, as pseudo declarations"""
+        for x in walk(body):
+            if x["kind"] == "VarDecl" and kids(x):
+                yield x
+            if x["kind"] == "BinaryOperator" and x.get("opcode") == "=":
+                l_ = strip(kids(x)[0], casts=True)
+                if l_["kind"] == "DeclRefExpr" and l_["ref"].get("kind") == "VarDecl":
+                    yield {"kind": "VarDecl", "name": l_["ref"]["name"], "id": l_["ref"]["id"], "inner": [kids(x)[1]],
+                           "file": x.get("file"), "line": x.get("line"), "endline": x.get("endline"), "col": x.get("col"),
+                           "_stmt": x}
+    for x in fetch_sites():
+        if True:
             ini = strip(kids(x)[0], casts=True)
             if ini["kind"] in ("AtomicExpr", "CallExpr"):
                 # clang 14's JSON omits the atomic operation's name: read it from the source line(s) of the node
@@ -145,7 +157,8 @@ def rules(rep, m):
             r2.ok()
         names_f = (fname, ic)
         stmts = kids(body)
-        di = next(i for i, s_ in enumerate(stmts) if any(y is idx_decl for y in walk(s_)))
+        anchor = idx_decl.get("_stmt", idx_decl)
+        di = next(i for i, s_ in enumerate(stmts) if any(y is anchor for y in walk(s_)))
         # exit test: the worker leaves only when the *first* fetched index is already past the end
         bi = None
         exit_conds = []
@@ -204,7 +217,19 @@ def rules(rep, m):
             r2.ok()
         # uses of the fetched index before the exit test
         if bi is not None:
-            uses = [i for i, s_ in enumerate(stmts[di + 1:], di + 1) if i != bi
+            def only_the_test(s_):
+                """a statement that just evaluates 'index < / >= total' into a local (the test itself, kept in a temporary)"""
+                t_ = strip(s_, casts=True)
+                rhs = None
+                if t_["kind"] == "BinaryOperator" and t_.get("opcode") == "=" and strip(kids(t_)[0], casts=True)["kind"] == "DeclRefExpr":
+                    rhs = kids(t_)[1]
+                elif t_["kind"] == "DeclStmt" and len(kids(t_)) == 1 and kids(kids(t_)[0]):
+                    rhs = kids(kids(t_)[0])[0]
+                if rhs is None:
+                    return False
+                c_ = wx.canon(rhs)
+                return any(c_ in ("(%s < cmg_total_trials)" % n_, "(%s >= cmg_total_trials)" % n_) for n_ in names_f)
+            uses = [i for i, s_ in enumerate(stmts[di + 1:], di + 1) if i != bi and not only_the_test(s_)
                     for y in walk(s_) if y["kind"] == "DeclRefExpr" and y.get("ref", {}).get("id") == idx_decl["id"]]
             if uses and min(uses) < bi:
                 rep.finding(r2, wk.name, "dispenser:bound", "the fetched index is used before the test 'index >= total'",
@@ -248,24 +273,42 @@ def rules(rep, m):
     # R-C19-3 ------------------------------------------------------------
     r3 = rep.rule("R-C19-3", "every thread created in the spawn loop is joined by a loop over the same bound before "
                   "cimba_run_experiment returns", floor=1)
-    cl = [x for x in walk(run.body) if x["kind"] == "ForStmt" and any(y is pc[0] for y in walk(x))]
+    LOOPS = ("ForStmt", "WhileStmt")
+    cl = [x for x in walk(run.body) if x["kind"] in LOOPS and any(y is pc[0] for y in walk(x))]
     pj = [c for c in walk(run.body) if c["kind"] == "CallExpr" and callee_ref(c) == "pthread_join"]
-    jl = [x for x in walk(run.body) if x["kind"] == "ForStmt" and pj and any(y is pj[0] for y in walk(x))]
+    jl = [x for x in walk(run.body) if x["kind"] in LOOPS and pj and any(y is pj[0] for y in walk(x))]
     okj = False
     if cl and jl:
-        b1, b2 = cx.canon(kids(cl[0])[2]), cx.canon(kids(jl[0])[2])
-        i1 = render(kids(cl[0])[0])
-        def start_of(lp):
-            for x in walk(kids(lp)[0]):
-                if x["kind"] == "VarDecl" and kids(x):
-                    return int_value(kids(x)[0])
-            return None
-        same_start = start_of(cl[0]) == start_of(jl[0]) == 0
-        a1 = cx.canon(kids(pc[0])[1])
-        a2 = cx.canon(kids(pj[0])[1])
-        r3.instance("create while %s into %s; join while %s from %s" % (b1, a1, b2, a2))
-        okj = same_start and b1 == b2 and a1.lstrip("&") == a2 and (inv.stmt_index_containing(run, jl[0]) or 0) > (inv.stmt_index_containing(run, cl[0]) or 0) \
-            and not any(x["kind"] == "ReturnStmt" for s in kids(run.body)[:inv.stmt_index_containing(run, jl[0]) or 0] for x in walk(s))
+        # both loops visit the same elements of the same handle array: element k for k = 0 .. trips-1, as an index loop or
+        # a pointer walk (induction variables)
+        def visited(lp, argnode, want_addr):
+            iv_, g_ = inv.induction_vars(cx, run, lp)
+            tc = inv.trip_count(iv_, g_)
+            if tc is None and g_ is not None:
+                e_, d_ = iv_[g_[0]]
+                mm = re.fullmatch(r"\(%s \+ (.+)\)" % re.escape(e_), g_[2])
+                if d_ == 1 and g_[1] in ("!=", "<") and mm:
+                    tc = mm.group(1)
+            n_ = strip(argnode, casts=True)
+            root = inv.storage_root(cx, run, n_)
+            # the element designated: &A[i] / A[i] with i the counter from 0, or p / *p with p the walking pointer from A
+            elem_ok = False
+            core = n_
+            if core["kind"] == "UnaryOperator" and core.get("opcode") in ("&", "*"):
+                core = strip(kids(core)[0], casts=True)
+            if core["kind"] == "ArraySubscriptExpr":
+                i_ = strip(kids(core)[1], casts=True)
+                elem_ok = i_["kind"] == "DeclRefExpr" and iv_.get(i_["ref"]["name"]) == ("0", 1)
+            elif core["kind"] == "DeclRefExpr" and core["ref"]["name"] in iv_:
+                e_, d_ = iv_[core["ref"]["name"]]
+                elem_ok = d_ == 1 and inv.storage_root(cx, run, core) == root
+            return root, tc, elem_ok
+        r1_, t1_, e1_ = visited(cl[0], kids(pc[0])[1], True)
+        r2_, t2_, e2_ = visited(jl[0], kids(pj[0])[1], False)
+        r3.instance("create: %s elements of %s; join: %s elements of %s" % (t1_, r1_, t2_, r2_))
+        order_ok = inv.executes_before(run, cl[0], jl[0])
+        no_ret = not any(x["kind"] == "ReturnStmt" and inv.executes_before(run, x, jl[0]) for x in walk(run.body))
+        okj = e1_ and e2_ and r1_ is not None and r1_ == r2_ and t1_ is not None and t1_ == t2_ and order_ok and no_ret
         okj = okj and cx.canon(kids(pc[0])[3]) == "worker_thread_func"
     if not okj:
         rep.finding(r3, run.name, "join", "worker threads are not all joined (same bound, same handles) before the experiment "
